@@ -174,6 +174,12 @@ def small_term(t):
     """safe to substitute for a variable: small and without products of non-constants"""
     if term_size(t) > 8:
         return False
+    if z3.is_app(t) and t.decl().kind() == z3.Z3_OP_MUL and t.num_args() == 2 and \
+            all(is_uconst(c) for c in t.children()):
+        return True         # a plain monomial x*y
+    if z3.is_app(t) and t.decl().kind() == z3.Z3_OP_UNINTERPRETED and t.num_args() == 1 and \
+            small_term(t.arg(0)):
+        return True         # bitlen(x*y), pow2(x+y)
     stack = [t]
     while stack:
         u = stack.pop()
